@@ -206,6 +206,25 @@ def reconnect(chk: Check, repo: Repo) -> None:
             ok_l = bool(cr_) and bool(est_) and bool(ltests) and ccfg.all_paths_hit(cr_[0], ltests, est_, edge_ok=ccfg.normal_only, include_start=False) and any(all(ccfg.dominates(r_, a_) for a_ in c_awaits) for r_ in resets)
         chk.ob("loss-during-connect-is-honoured", cnf.site(), ok_l, (f"_tunnel_lost records a loss reported while connect() is pending (self.{rec[0]}), connect() clears the record before its first await and tests it between the ConnectResponse and _tunnel_established" if ok_l else
                f"a loss reported while connect() is pending is dropped (records: {rec}): a DisconnectRequest processed between the ConnectResponse and the resumption of connect() leaves the interface reading 'connected' for a channel the server has closed"), key="connect|loss-heard")
+    # disconnect() stops the transport; a transport connect() that is still suspended in the TCP connection set-up has to
+    # notice: it compares a marker that stop() changes with its value from before the await and gives up - else the
+    # pending connect goes on (a secure session sends its SessionRequest, SessionAuthenticate ...) after the user's
+    # disconnect() has returned
+    tt = repo.cls("xknx.io.transport.tcp_transport", "TCPTransport")
+    tstop, tcon = tt.methods.get("stop"), tt.methods.get("connect")
+    ok_m, why_m = False, "TCPTransport.stop() leaves no mark a pending connect() could see"
+    if tstop is not None and tcon is not None:
+        chk.unit(tcon)
+        marks = sorted({ast.unparse(n.target if isinstance(n, ast.AugAssign) else n.targets[0]) for n in walk_local(tstop.node) if isinstance(n, (ast.AugAssign, ast.Assign)) and ast.unparse(n.target if isinstance(n, ast.AugAssign) else n.targets[0]).startswith("self._")})
+        tc_cfg = CFG(tcon.node)
+        aw = [n.id for n in tc_cfg.nodes if n.ast is not None and n.kind == "stmt" and any(isinstance(x, ast.Await) for x in ast.walk(n.ast))]
+        for mk in marks:
+            snaps = [(n.id, n.ast.targets[0].id) for n in tc_cfg.nodes if n.kind == "stmt" and isinstance(n.ast, ast.Assign) and isinstance(n.ast.targets[0], ast.Name) and ast.unparse(n.ast.value) == mk]
+            for sid, loc in snaps:
+                tests = [n.id for n in tc_cfg.nodes if n.kind == "test" and isinstance(n.ast, ast.Compare) and {ast.unparse(n.ast.left), ast.unparse(n.ast.comparators[0])} == {mk, loc}]
+                if aw and tests and all(tc_cfg.dominates(sid, a) for a in aw) and all(tc_cfg.all_paths_hit(a, tests, [tc_cfg.exit], edge_ok=tc_cfg.normal_only, include_start=False) for a in aw):
+                    ok_m, why_m = True, f"TCPTransport.connect() compares {mk} (changed by stop()) with its value from before the await and gives up on a difference"
+    chk.ob("transport-connect-notices-a-stop", tcon.site() if tcon is not None else tt.module.relpath, ok_m, why_m + ("" if ok_m else ": disconnect() during the initial connect of a secure tunnel returns, and the SessionRequest is sent afterwards"), key="connect|stop-heard")
     for disc, conn_, auto, task, transport, channel in product((False, True), (False, True), (False, True), ("none", "running", "finished"), (False, True), (False, True)):
         if (disc and flag is None) or (conn_ and cflag is None) or (disc and conn_):
             continue
